@@ -353,14 +353,18 @@ pub fn exec_c05(plan: &C05Plan, st: &mut Stats) -> Option<Violation> {
             if !wanted(pi) {
                 continue;
             }
-            if max_declared_samples(&p.bytes, plan.opts & 1 == 1) > crate::session::SCREEN_SAMPLES {
-                st.inc("excluded_too_large");
-                continue;
-            }
             let mut m = prep(plan).ok()?;
             let before_obs = observe(&m, &Outcome::Ok);
             let before = state_digest(&m.state);
             m.feed(&p.bytes);
+            // memory screen over everything the reader can see (on a reused reader the
+            // padding of the previous picture and the first zeros of this one can form
+            // a start code of their own)
+            let too_large = max_declared_samples(&m.pipe.lock().unwrap().data, plan.opts & 1 == 1) > crate::session::SCREEN_SAMPLES;
+            if too_large {
+                st.inc("excluded_too_large");
+                continue;
+            }
             let o = m.decode();
             st.inc("evaluations");
             st.add("steps", 1);
@@ -398,6 +402,46 @@ pub fn exec_c05(plan: &C05Plan, st: &mut Stats) -> Option<Violation> {
                 return viol("decoding valid data after a rejected picture differs from the twin", format!("{what}: {}", diff_obs(&ob, &twin.after_v)));
             }
             if let Some(x) = check_continuation(&mut m, plan, &twin, &what) {
+                return Some(x);
+            }
+        }
+    }
+    // ---- 5. a chain of different failures on ONE decoder, then valid data ----------------
+    if plan.do_poison && plan.only.is_empty() {
+        let mut m = build(plan.opts, &plan.prefix).ok()?;
+        let before_obs = observe(&m, &Outcome::Ok);
+        let before = state_digest(&m.state);
+        let mut failed = 0;
+        let mut clean = true;
+        for p in plan.poisons.iter() {
+            if max_declared_samples(&p.bytes, plan.opts & 1 == 1) > crate::session::SCREEN_SAMPLES {
+                continue;
+            }
+            let o = decode_fresh(&mut m, &p.bytes);
+            st.inc("evaluations");
+            match &o {
+                Outcome::Panic(pp) => return viol("panic", format!("failure chain, poison '{}': {pp}", p.note)),
+                Outcome::Ok => {
+                    clean = false; // accepted: the state changed legitimately, stop the chain
+                    break;
+                }
+                Outcome::Err(_) => {
+                    failed += 1;
+                    if let Some(x) = check_unchanged(&m, (before, &before_obs), &format!("failure chain: after {failed} rejected pictures, last '{}'", p.note)) {
+                        return Some(x);
+                    }
+                }
+            }
+        }
+        if clean && failed > 0 {
+            st.inc("probe.failure_chain_completed");
+            st.add("failure_chain_rejected_pictures", failed);
+            let o2 = decode_fresh(&mut m, v);
+            let ob = observe(&m, &o2);
+            if ob != twin.after_v {
+                return viol("decoding valid data after a chain of rejected pictures differs from the twin", format!("{failed} rejected pictures: {}", diff_obs(&ob, &twin.after_v)));
+            }
+            if let Some(x) = check_continuation(&mut m, plan, &twin, &format!("after a chain of {failed} rejected pictures")) {
                 return Some(x);
             }
         }
@@ -691,6 +735,6 @@ impl Property for C05 {
         ]
     }
     fn probe_names() -> Vec<&'static str> {
-        vec!["io_error_inside_header", "io_error_inside_mb_header", "io_error_inside_block_data", "split_failed_inside_header", "split_failed_inside_block_data", "failure_on_a_reused_reader"]
+        vec!["io_error_inside_header", "io_error_inside_mb_header", "io_error_inside_block_data", "split_failed_inside_header", "split_failed_inside_block_data", "failure_on_a_reused_reader", "failure_chain_completed"]
     }
 }
